@@ -475,6 +475,11 @@ def gen_node_ops(rng, n):
     for k in range(3):
         for a in range(3):
             ops.append(("find", (k, a), rng.randrange(5), 0, False))
+    for k in range(3):
+        if rng.random() < 0.5:
+            # the requester key is a VERIFIED peer of the node (introduction exchanged earlier, at one of its addresses):
+            # message handlers then reuse the node's Peer object for it instead of building a fresh one per datagram
+            ops.insert(rng.randrange(len(ops) + 1), ("verify", k, rng.randrange(3)))
     nfill = rng.choice([0, 0, 4, 8, 10])
     if nfill:
         ops.append(("fill", nfill))
@@ -512,6 +517,8 @@ def gen_node_ops(rng, n):
                             tuple(("str", 100 + base + 8 * part + j, 0) for j in range(rng.choice([5, 8, 8])))))
             ops.append(("find", ident, tgt, 0, False))
             ops.append(("find", ident, tgt, rng.choice([1, 3, 9]), False))
+        elif r < 0.877:
+            ops.append(("verify", rng.randrange(3), rng.randrange(3)))
         elif r < 0.880:
             ops.append(("sfind", rng.randrange(6)))
         elif r < 0.885:
@@ -661,6 +668,7 @@ class NodeRun:
         s2_tokens = {}
         model_refs = [0]
         accepted = []        # (target, blob, time, spec max age)
+        verified = set()     # requester keys that are verified peers of the node
         ntok_before = [0]
         npeers = []
 
@@ -760,6 +768,10 @@ class NodeRun:
                         await do_find(i, op[1], 0, 0, True)
             elif op[0] == "ping":
                 await do_ping(op[1])
+            elif op[0] == "verify":
+                from ipv8.peer import Peer
+                ov.network.add_verified_peer(Peer(W.keys[op[1]].pub(), addrs[op[2]]))
+                verified.add(op[1])
             elif op[0] == "sfind":
                 # the node under test looks a key up itself (at the second real node): it now holds a RECEIVED token,
                 # which its own token_maintenance - run by the task manager during later advances - has to expire
@@ -858,6 +870,10 @@ class NodeRun:
                 big = any(len(b) > SPEC_MAX_SIZE for b in vals)
                 many = len(vals) > SPEC_MAX_VALUES
                 ctx.count(f"B.store:tok={tk[0]}:{'valid' if ok_tok else 'invalid'}")
+                ctx.count("B.requester:" + ("verified-peer" if k in verified else "unknown-peer"))
+                if tok[1] is not None and tok[1][0] == k and tok[1][1] != a:
+                    ctx.count("B.store:token-of-same-key-other-address:" +
+                              ("verified-peer" if k in verified else "unknown-peer"))
                 ctx.count("B.store:" + ("accepted" if data is not None else "changed-no-resp" if changed else "rejected"))
                 ctx.count("B.store:max_age=%d" % spec_max_age(nc))
                 for s in vspecs:
@@ -1649,6 +1665,9 @@ BRANCH_CLASSES = {
     "findReq: force_nodes": ["B.find:force-nodes"], "findReq: offset": ["B.find:offset>0:nonempty", "B.find:offset>0:empty"],
     "findReq: token for the source, not the named LAN address": ["B.find:lan-differs-from-source"],
     "pingReq: answered / blocked": ["B.ping:answered", "B.ping:blocked"],
+    "requester known to the node as a verified peer / unknown": ["B.requester:verified-peer", "B.requester:unknown-peer"],
+    "token of the same key issued at another address, presented by a verified / unknown peer":
+        ["B.store:token-of-same-key-other-address:verified-peer", "B.store:token-of-same-key-other-address:unknown-peer"],
     "storePeerReq: accepted": ["B.storepeer:own:valid:acc"], "storePeerReq: token guard": ["B.storepeer:own:invalid:rej"],
     "storePeerReq: own-mid guard": ["B.storepeer:other:valid:rej", "B.storepeer:rand:valid:rej"],
     "storePeerReq: peer already stored": ["B.storepeer:already-stored"],
